@@ -28,7 +28,7 @@ pub fn check_texts(doc: &str, rules: &str, expected: &J) -> Result<Verdict, (Str
                 .as_array()
                 .map(|a| a.iter().map(|p| (p[0].as_str().unwrap_or("").to_string(), p[1].as_str().unwrap_or("").to_string())).collect())
                 .unwrap_or_default();
-            let got: Vec<(String, String)> = rs.iter().map(|(n, s)| (n.clone(), s.text().to_string())).collect();
+            let got: Vec<(String, String)> = rs.iter().map(|(n, s)| (crate::drive::strip_file_prefix(n), s.text().to_string())).collect();
             got == exp_rules && Some(file.text()) == o["file"].as_str()
         }
         _ => false,
@@ -330,6 +330,8 @@ fn has_resolved_query(_f: &File) -> bool {
 
 fn random_case(u: &mut Choices, sz: Size) -> CaseResult {
     let doc = gen_doc(u, &sz);
+    let mut sz = sz;
+    sz.default_rule = true;
     let file = gen_core_file(u, &doc, sz, true, true);
     let doc_text = doc.to_json();
     let text = print_file(&file);
@@ -368,6 +370,9 @@ fn random_case(u: &mut Choices, sz: Size) -> CaseResult {
                 }
             }
             feature_classes(&file, &mut classes);
+            if !file.default.is_empty() {
+                classes.push("has:default-rule".into());
+            }
             let _ = has_resolved_query(&file);
             CaseResult::Pass(Info {
                 nontrivial,
